@@ -1056,6 +1056,10 @@ class C12(Check):
             names = rng.sample(["zeta", "alpha", "M", "m", "10", "9", "_", "node-1", "Z9", "b", "aa", "a"], len(labs)) if len(labs) <= 12 else None
             if names:
                 maps.append(("s", dict(zip(labs, names))))
+            # floating-point labels: distinct doubles are distinct vertices however close they are
+            fl = rng.choice([lambda i: i + 0.5, lambda i: 4.0e6 + i, lambda i: 0.25 + i * 2.0 ** -22, lambda i: 1e300 * (1 + i * 2.0 ** -40),
+                             lambda i: -3.5 + i * 1e-9])
+            maps.append(("d", dict(zip(labs, [float(fl(i)) for i in rng.sample(range(len(labs) + 3), len(labs))]))))
             trip["l%d" % n] = (rc, maps)
         # one input of realistic size: more records than any 16-bit counter or small-input shortcut covers
         for n in range(1 if self.tier == "quick" else 3):
@@ -1086,7 +1090,7 @@ class C12(Check):
                     continue
                 self.monitor("relabelled pairs")
                 diff = [x for x in NUMERIC_KEYS if o.get(x) != base.get(x)]
-                want = [str(mp[int(x)]) for x in base["labels"]]
+                want = [hexf(mp[int(x)]) if lt == "d" else str(mp[int(x)]) for x in base["labels"]]
                 if o.get("labels") != want:
                     diff.append("labels %s != %s" % (o.get("labels"), want))
                 self.nontrivial((lt, str(sorted(mp.items())), str(rc.recs), rc.seed))
